@@ -65,6 +65,8 @@ def main(argv):
     baseline = set(baseline_all.get(pid, []))
 
     proved, refuted, undecided = [], [], []
+    harness_fields_base = baseline_all.get("__harness_fields__", {}).get(pid, {})
+    harness_fields_now = {}
     seen = set()
     functions = {}
     trusted, assumptions = set(), set()
@@ -91,9 +93,15 @@ def main(argv):
             # an exception inside the executor while it interprets (possibly changed) source is a tool limit: the unit's obligations are
             # undecided (they are missing against the baseline below) - never a violation, and not a broken check either
             assumptions.add(f"unit {r['unit']}: executor exception, obligations undecided: {r['reason'][:200]}")
+        harness_fields_now[r["unit"]] = list(r.get("harness_only_fields", []))
+        # attribute names this unit's harness uses that occur NOWHERE in the source at hand, although they did on the source the baseline was recorded
+        # for: the representation the harness prepares / inspects is no longer the code's. What such a unit refutes is undecided, not a violation
+        stale_repr = sorted(set(r.get("harness_only_fields", [])) - set(harness_fields_base[r["unit"]])) if r["unit"] in harness_fields_base else []
         for name, o in r["obligations"].items():
             full = f"{r['unit']}::{name}"
             seen.add(full)
+            if stale_repr and o["verdict"] == "refuted":
+                o = dict(o, verdict="undecided", reason=f"representation changed: the unit's harness refers to attribute(s) {stale_repr} that the source no longer has")
             for b in o["backend"]:
                 backends[b] = backends.get(b, 0) + 1
             if o["verdict"] == "proved":
@@ -132,6 +140,7 @@ def main(argv):
             print(f"BASELINE-WARNING unit {u_} status={unit_status[u_].get('status')}: {str(unit_status[u_].get('reason'))[:160]}")
         baseline_all[pid] = sorted(seen | kept)
         baseline_all.setdefault("__source_digest__", {})[pid] = src_digest()
+        baseline_all.setdefault("__harness_fields__", {})[pid] = {u_: v_ for u_, v_ in sorted(harness_fields_now.items())}
         with open(os.path.join(ROOT, "expected_obligations.json"), "w") as f:
             json.dump(baseline_all, f, indent=1, sort_keys=True)
         baseline = set(seen)
